@@ -48,6 +48,8 @@ def compute_domains_exactly_true(domains: NDArray, parameters: NDArray) -> int:
     c = parameters[0]
     count_max = len(domains) - c
     count_min = -c
+    if count_min > 0 or count_max < 0:  # a count is neither negative nor greater than the number of variables
+        return PROP_INCONSISTENCY
     for domain in domains:
         if domain[MAX] < 1:
             count_max -= 1
